@@ -77,6 +77,9 @@ namespace pika::detail {
             // notify_one() returns false if no more threads are waiting
             if (!cond_.notify_one(std::move(l))) break;
 
+#if defined(PIKA_VERIF)
+            PIKA_VERIF_POINT(815, this);
+#endif
             l = std::unique_lock<mutex_type>(*mtx);
         }
     }
